@@ -2,6 +2,7 @@ import TunnoxModel.Driver.Util
 import TunnoxModel.Spec.C19
 import TunnoxModel.Model.C19Fault
 import TunnoxModel.Model.C19Reg
+import TunnoxModel.Model.C19Sys
 /-!
   Line protocol for C19 (see harness/c19/main.go for the case / observation grammar).
   The current tree corresponds to the `.repaired` variant of `DeleteMapping`.
@@ -150,7 +151,12 @@ def runFaultModel (fc : FaultCase) : String :=
 
 def parseROp (tok : String) : Option ROp :=
   if tok.startsWith "r:" then (parseExt (tok.drop 2).toString).map .register
+  else if tok.startsWith "rb=" then
+    let body := (tok.drop 3).toString
+    if body == "" then some (.rebuild []) else ((body.splitOn ",").mapM parseExt).map .rebuild
   else match fields tok with
+    | ["xi", id] => (strOfHex id).map .unregId
+    | ["av", sub, base] => do pure (.avail (← strOfHex sub) (← strOfHex base))
     | ["x", d] => (strOfHex d).map .unregister
     | ["l", h] => (strOfHex h).map .lookup
     | _ => none
@@ -160,6 +166,7 @@ def rresStr : RRes → String
   | .err c => "e:" ++ c
   | .found id cl => s!"f:{hexOfStr id}:{cl}"
   | .notFound => "nf"
+  | .flag b => if b then "b:1" else "b:0"
 
 def parseRRes (tok : String) : Option RRes :=
   if tok == "ok" then some .ok
@@ -167,6 +174,7 @@ def parseRRes (tok : String) : Option RRes :=
   else match fields tok with
     | ["e", c] => some (.err c)
     | ["f", id, cl] => do pure (.found (← strOfHex id) (← cl.toNat?))
+    | ["b", b] => some (.flag (b == "1"))
     | _ => none
 
 def parseRegSeq (ts : List String) : Option RInput :=
@@ -223,21 +231,6 @@ def raceSlots (rc : RaceCase) (toks : List String) : Option (List RSlot) := do
       pure (⟨t, true, none, some (.register pm, res)⟩ : RSlot)
     | _ => none)
   if rets.length != n + 1 then none else pure (invs ++ rets)
-
-def runModel (ts : List String) : String :=
-  if ts.head? == some "c19q" then
-    match parseRegSeq ts with
-    | some i => runRegSeqModel i
-    | none => "bad-case"
-  else
-  if ts.head? == some "c19f" then
-    match parseFaultCase ts with
-    | some fc => runFaultModel fc
-    | none => "bad-case"
-  else
-  match parseCase ts with
-  | some i => obsStr (model i)
-  | none => "bad-case"
 
 /-! ### parsing an observation of the implementation -/
 
@@ -321,6 +314,143 @@ def parseObs (i : Input) (toks : List String) : Option Obs := do
   let more ← decDrain (drainFuel i) d1 rest
   pure ⟨ss ++ more, parseFinal ((toks.dropWhile (· != "|")).drop 1)⟩
 
+/-! ### entry-point histories: `c19h now N bases k … ops n <hop>…`  (sequential; see Model/C19Sys.lean) -/
+
+def parseHOp (tok : String) : Option HOp :=
+  match fields tok with
+  | ["hc", c, sub, base, sch, host, port, ttl] => do
+    pure (.hcreate (← c.toNat?) (← strOfHex sub) (← strOfHex base) (← strOfHex sch) (← strOfHex host) (← port.toNat?) (← ttl.toNat?))
+  | ["hd", c, n] => do pure (.hdelete (← c.toNat?) (← n.toNat?))
+  | ["cu"] => some .cleanup
+  | ["ls", c] => c.toNat?.map .listClient
+  | ["la"] => some .listAll
+  | ["av", sub, base] => do pure (.avail (← strOfHex sub) (← strOfHex base))
+  | ["s", h] => (strOfHex h).map .serve
+  | _ => (parseOp tok).map .op
+
+def delsStr (l : List (Nat × Nat × Nat)) : String :=
+  if l.isEmpty then "-" else ",".intercalate (l.map (fun d => s!"{d.1}/{d.2.1}/{d.2.2}"))
+
+def hresStr : HRes → String
+  | .res r => resStr r
+  | .refused why => "x:" ++ why
+  | .cleaned n del => s!"cu:{n}:{delsStr del}"
+  | .ids l => "ids:" ++ idsStr l
+  | .flag b => if b then "b:1" else "b:0"
+  | .served c url => s!"sv:{c}:{hexOfStr url}"
+  | .status code => s!"st:{code}"
+
+def parseDels (s : String) : Option (List (Nat × Nat × Nat)) :=
+  if s == "-" then some [] else
+  (s.splitOn ",").mapM (fun t =>
+    match t.splitOn "/" with
+    | [a, b, c] => do pure (← a.toNat?, ← b.toNat?, ← c.toNat?)
+    | _ => none)
+
+def parseHRes (tok : String) : Option HRes :=
+  match fields tok with
+  | ["x", why] => some (.refused why)
+  | ["cu", n, del] => do pure (.cleaned (← n.toNat?) (← parseDels del))
+  | ["ids", l] => (parseIds l).map .ids
+  | ["b", b] => some (.flag (b == "1"))
+  | ["sv", c, url] => do pure (.served (← c.toNat?) (← strOfHex url))
+  | ["st", code] => code.toNat?.map .status
+  | _ => (parseRes tok).map .res
+
+structure SysCase where
+  cf : Config
+  ops : List HOp
+
+def parseSys (ts : List String) : Option SysCase :=
+  match ts with
+  | "c19h" :: "now" :: now :: "bases" :: ts => do
+    let now ← now.toNat?
+    let (bases, ts) ← takeCounted ts
+    let bases ← bases.mapM strOfHex
+    match ts with
+    | "ops" :: ts => do
+      let (ops, rest) ← takeCounted ts
+      if !rest.isEmpty then none else
+      let ops ← ops.mapM parseHOp
+      pure ⟨⟨.repaired, now, bases, []⟩, ops⟩
+    | _ => none
+  | _ => none
+
+def opsOfH : List HOp → List Op
+  | [] => []
+  | .hcreate c sub base sch host port _ :: r => .create c sub base host (targetPort sch port) :: opsOfH r
+  | .hdelete c n :: r => .del n c :: opsOfH r
+  | .op o :: r => o :: opsOfH r
+  | _ :: r => opsOfH r
+
+/-- the Input used only to enumerate the digest (names and clients that occur in the history) -/
+def sysUni (sc : SysCase) : Input := ⟨sc.cf, [], [opsOfH sc.ops], []⟩
+
+def runSysModel (sc : SysCase) : String :=
+  let r := runH sc.cf (initStore (sysUni sc)) sc.ops
+  " ".intercalate (r.2.map hresStr ++ ["|"] ++ finalToks (finalOf (sysUni sc) r.1))
+
+/-- `http://host:port/p` ↦ (host, port) -/
+def splitURL (url : String) : Option (String × Nat) :=
+  let body := (url.drop 7).toString
+  let hp := (body.splitOn "/").headD ""
+  match hp.splitOn ":" with
+  | [h, p] => p.toNat?.map (fun p => (h, p))
+  | _ => none
+
+/-- what the monitor is shown for a history of entry-point calls and their observed results -/
+def sysPairs (cf : Config) : List HOp → List HRes → List (Op × Res) → List (Op × Res)
+  | .serve host :: hs, r :: rs, acc =>
+    let shown : List (Op × Res) :=
+      match r with
+      | .served c url =>
+        match splitURL url with
+        | some (th, tp) =>
+          -- the mapping id is not visible at this boundary: the latest created mapping of that client for a name the Host denotes
+          let pid := (acc.reverse.findSome? (fun p =>
+            match p with
+            | (.create c' sub base _ _, .okId n) => if c' == c && nameOK host (sub ++ "." ++ base) then some (mappingID n) else none
+            | _ => none)).getD "?"
+          [(.look host, .route pid c th tp)]
+        | none => [(.look host, .route "?" c "?" 0)]
+      | .status code => [(.look host, .err (toString code))]
+      | _ => []
+    sysPairs cf hs rs (acc ++ shown)
+  | h :: hs, r :: rs, acc => sysPairs cf hs rs (acc ++ expandH cf h r)
+  | _, _, acc => acc
+
+def runSysHolds (sc : SysCase) (toks : List String) : String :=
+  let resToks := toks.takeWhile (· != "|")
+  if !(toks.contains "|") || resToks.length != sc.ops.length then "false" else
+  match resToks.mapM parseHRes with
+  | none => "false"
+  | some rs =>
+    let pairs := sysPairs sc.cf sc.ops rs []
+    let i : Input := ⟨sc.cf, [], [pairs.map (·.1)], []⟩
+    let slots : List Slot := pairs.map (fun p => ⟨0, true, some p.1, some p⟩)
+    let o : Obs := ⟨slots, parseFinal ((toks.dropWhile (· != "|")).drop 1)⟩
+    boolStr (holds i o && ((sc.ops.zip rs).all (fun p => entryOK sc.cf p.1 p.2)))
+
+def runModel (ts : List String) : String :=
+  if ts.head? == some "c19h" then
+    match parseSys ts with
+    | some sc => runSysModel sc
+    | none => "bad-case"
+  else
+  if ts.head? == some "c19q" then
+    match parseRegSeq ts with
+    | some i => runRegSeqModel i
+    | none => "bad-case"
+  else
+  if ts.head? == some "c19f" then
+    match parseFaultCase ts with
+    | some fc => runFaultModel fc
+    | none => "bad-case"
+  else
+  match parseCase ts with
+  | some i => obsStr (model i)
+  | none => "bad-case"
+
 def parseFaultObs (toks : List String) : Option FaultObs :=
   let a := toks.takeWhile (· != "|")
   let rest := (toks.dropWhile (· != "|")).drop 1
@@ -331,6 +461,11 @@ def parseFaultObs (toks : List String) : Option FaultObs :=
   | _ => none
 
 def runHolds (caseToks obsToks : List String) : String :=
+  if caseToks.head? == some "c19h" then
+    match parseSys caseToks with
+    | some sc => runSysHolds sc obsToks
+    | none => "false"
+  else
   if caseToks.head? == some "c19q" then
     match parseRegSeq caseToks with
     | some i =>
